@@ -188,6 +188,9 @@ class Ctx:
         self.atomval = {}        # angle atom name -> callable(envget) -> numeric angle
         self.notes = []          # proof tactics / assumptions used (for evidence)
         self.known = {}          # Poly.key() -> sign class, for polynomials whose sign is a precondition
+        self.knownA = {}         # A.key() -> sign class established along the computation (fractions)
+        self.cps = {}            # key of a copysign variable -> (magnitude, sign source)
+        self.radicals = {}       # radical variable r -> polynomial E with r >= 0, r^2 = E
         self.stub_depth = 0
 
     # variables
@@ -465,6 +468,7 @@ class A:
                     sg = nf
             if sg is not None:
                 r.sg = sg
+                _remember_sign(r)
         return r
 
     def _add(self, o):
@@ -518,6 +522,7 @@ class A:
                 sg = _sg_mul(self.sign(), o.sign())
                 if sg is not None:
                     r.sg = sg
+            _remember_sign(r)
         return r
 
     def _mul(self, o):
@@ -651,6 +656,10 @@ class A:
     def _sign(self):
         if self.n.is_zero():
             return "0"
+        if not self.d.is_one():
+            k = CTX.knownA.get(self.key())
+            if k is not None:
+                return k
         sn = CTX.poly_sign(self.n)
         if sn is None:
             sn = CTX.known.get(self.n.key())
@@ -675,6 +684,22 @@ class A:
 
 
 _ONE = Poly.const(1)
+
+
+def _remember_sign(r):
+    """a sign established along the computation (e.g. of a square) is remembered for the normal form, so that the same
+    polynomial reached by another route (T^2 - |p|^2 + |p|^2) is recognised"""
+    if r.sg in ("+", "-", "0+", "0-") and not r.d.is_one():
+        k = r.key()
+        old = CTX.knownA.get(k)
+        if old is None or (old in ("0+", "0-") and r.sg in ("+", "-")):
+            CTX.knownA[k] = r.sg
+        return
+    if r.sg in ("+", "-", "0+", "0-") and r.d.is_one() and r.n.nterms() > 1:
+        k = r.n.key()
+        old = CTX.known.get(k)
+        if old is None or (old in ("0+", "0-") and r.sg in ("+", "-")):
+            CTX.known[k] = r.sg
 
 
 def _sg_add(a, b):
@@ -1488,6 +1513,7 @@ class Lib:
             pr = Poly.var(r)
             ctx.hyp(f_and(f_rel(pr, ">" if s == "+" else ">="), f_rel(pr * pr - ins, "==")))
             ctx.add_rule(((r, 2),), ins)
+            ctx.radicals[r] = ins
             ctx.memo[key2] = r
         res = A(out * Poly.var(r))
         ctx.memo[key] = res
@@ -1699,12 +1725,24 @@ class Lib:
             return m          # numpy: copysign(x, +0.0) = |x|
         if s == "-":
             return -m
+        # copysign(|b|, b) = b
+        if m.key() == self.absolute(b).key():
+            return b
+        # copysign(x, v) with v = copysign(mb, bb) and x = mb^2 (so x = 0 whenever v = 0):  = copysign(x, bb)
+        info = CTX.cps.get(b.key())
+        if info is not None:
+            mb, bb = info
+            if m.key() == (mb * mb).key():
+                return self.copysign(m, bb)
         mk = ("copysign",) + m.key() + b.key()
         if mk in CTX.memo:
             return CTX.memo[mk]
         v = CTX.new(f"cps{len(CTX.names)}", None, lambda env: abs(m.num(env)) if b.num(env) >= 0 else -abs(m.num(env)))
         av = A.var(v)
         CTX.hyp(f_and(f_imp(b.rel(">="), av.rel("==", m)), f_imp(b.rel("<"), av.rel("==", -m))))
+        if m.d.is_one():
+            CTX.add_rule(((v, 2),), CTX.reduce(m.n * m.n))      # v = +-m
+        CTX.cps[av.key()] = (m, b)
         CTX.memo[mk] = av
         return av
 
